@@ -24,6 +24,7 @@ func runC17(c *core.Ctx) {
 	c.Assume("A6: partial correctness", "closers are not invoked from within other methods of the same handle (checked: no static call to a closer from a sibling method)")
 	c.RuleDoc("R17.1", "nullable pointer field: every dereference guarded by a dominating non-nil test")
 	c.RuleDoc("R17.5", "every success return of a handle method lies on a path that consulted the closed mark or delegated")
+	c.RuleDoc("R17.8", "every error of the OS-backed handle is the inner *os.File's (a closed handle answers ErrClosed whatever the arguments)")
 	c.RuleDoc("R17.7", "methods of the OS-backed file act through the held *os.File only")
 	c.RuleDoc("R17.6", "handle values are never recycled through a pool")
 	c.RuleDoc("R17.2", "every File type has a closed state that every method consults or delegates")
@@ -35,6 +36,7 @@ func runC17(c *core.Ctx) {
 		r17ClosedState(c, p)
 		r17NoPool(c, p, p.SrcFuncs())
 		r17HandleOnly(c, p)
+		r17WrapperAnswersLast(c, p)
 		if p.Target == load.Linux {
 			r17WriteBack(c, p)
 		}
@@ -43,6 +45,7 @@ func runC17(c *core.Ctx) {
 	c.Floor("R17.2", 5)
 	c.Floor("R17.5", 30)
 	c.Floor("R17.7", 10)
+	c.Floor("R17.8", 10)
 	c.Floor("R17.3", 8)
 	c.Floor("R17.4", 1)
 }
@@ -777,5 +780,81 @@ func r17HandleOnly(c *core.Ctx, p *load.Program) {
 		})
 		c.Check(bad == "", "R17.7", key, p.Pos(fn.Pos()), "acts through the held *os.File only",
 			fmt.Sprintf("%s calls %s, a by-name function of package os: on a closed handle the *os.File method fails with ErrClosed but the by-name call succeeds — the method returns nil after Close and changes whatever file has that name now", fname(fn), bad))
+	}
+}
+
+// r17WrapperAnswersLast (R17.8): the OS-backed handle is a thin wrapper: every error a method returns is (a
+// translation of) the error the inner *os.File gave for the same call. An error the wrapper builds on its own ahead
+// of the inner call (argument validation) is also returned on a closed handle, where os.File answers ErrClosed.
+func r17WrapperAnswersLast(c *core.Ctx, p *load.Program) {
+	n := p.Named("os", "file")
+	if n == nil {
+		c.Hard("anchor: os.file")
+		return
+	}
+	isInner := func(cl *ssa.Call) bool {
+		callee := ssax.StaticCallee(cl)
+		if callee == nil || callee.Signature.Recv() == nil {
+			return false
+		}
+		return strings.HasSuffix(callee.Signature.Recv().Type().String(), "*os.File")
+	}
+	var fromInner func(v ssa.Value, d int, seen map[ssa.Value]bool) bool
+	fromInner = func(v ssa.Value, d int, seen map[ssa.Value]bool) bool {
+		if v == nil || d > 8 {
+			return false
+		}
+		if seen[v] {
+			return true
+		}
+		seen[v] = true
+		switch x := v.(type) {
+		case *ssa.Extract:
+			if cl, ok := x.Tuple.(*ssa.Call); ok {
+				return isInner(cl)
+			}
+		case *ssa.Call:
+			if isInner(x) {
+				return true
+			}
+			if callee := ssax.StaticCallee(x); callee != nil && p.InModule(callee) {
+				// a translator: follows its error argument
+				for _, a := range x.Call.Args {
+					if ssax.IsErrorType(a.Type()) {
+						return fromInner(a, d+1, seen)
+					}
+				}
+			}
+		case *ssa.Phi:
+			for _, e := range x.Edges {
+				if !fromInner(e, d+1, seen) {
+					return false
+				}
+			}
+			return true
+		case *ssa.Const:
+			return x.IsNil()
+		}
+		return false
+	}
+	cnt := 0
+	for _, fn := range methodList(p, n) {
+		eidx := ssax.ErrorResultIndex(fn.Signature)
+		if eidx < 0 {
+			continue
+		}
+		cnt++
+		key := fname(fn) + "|error-is-the-inner-handle's"
+		bad := ""
+		for _, r := range ssax.Returns(fn) {
+			if !fromInner(resolveSpilled(r.Results[eidx], r), 0, map[ssa.Value]bool{}) {
+				bad = p.Pos(r.Pos())
+			}
+		}
+		c.Check(bad == "", "R17.8", key, p.Pos(fn.Pos()), "every returned error is the translated error of the inner *os.File call",
+			fmt.Sprintf("%s returns at %s an error that does not come from the inner *os.File: the wrapper answers on its own (argument validation ahead of the call), so on a closed handle the caller gets that error instead of ErrClosed — os.File answers ErrClosed for any arguments", fname(fn), bad))
+	}
+	if cnt < 10 {
+		c.Hard("anchor: methods of os.file returning an error (found %d)", cnt)
 	}
 }
